@@ -537,3 +537,21 @@ def run_family(ctx, check, modes, shared=False):
         "single packet-loop goroutine (concurrency is C09)",
         "TLC explores the bounded universe of HostsMC (2 client MACs, 2 LAN addresses, 1 LLA, 1 GUA); longer histories over 6 MACs / 17 addresses are sampled",
     ]
+
+
+def liveness(ctx):
+    """Model-level liveness of the ageing rules (spec/HostsLive.tla): finitely many frames, fair clock and purge:
+    tables and reference drain, the notification ledger settles. A vacuity guard (the same properties without fairness)
+    must fail. Decides nothing about the code by itself: the safety checks bind the model; a failure here is a
+    model-level failure (exit 2)."""
+    budget = 2 if ctx.quick else 3
+    cfg = open(os.path.join(vlib.SPEC, "HostsLive.cfg")).read().replace("Budget = 3", "Budget = %d" % budget)
+    r = vlib.tlc(ctx, "HostsLive", cfg="HostsLive_run.cfg", files={"HostsLive_run.cfg": cfg}, workers=min(8, ctx.workers),
+                 timeout=2400, heap="8g", jprops={"tlc2.tool.queue.IStateQueue": "MemStateQueue"})
+    if not r.ok:
+        raise vlib.InfraError("HostsLive: model-level failure (violated=%s error=%s)\n%s" % (r.violated, r.error, r.out[-2000:]))
+    g = vlib.tlc(ctx, "HostsLive", cfg="HostsLive_unfair.cfg", workers=1, timeout=600, heap="2g")
+    if "Temporal property AgesOutM was violated" not in g.out:
+        raise vlib.InfraError("HostsLive vacuity guard: AgesOutM holds without fairness\n" + g.out[-1500:])
+    return {"budget": budget, "summary": r.summary(), "properties": ["AgesOutM", "AgesOutR", "LedgerSettles", "EachAgesOut"],
+            "vacuity_guard": "violated without fairness, as required"}
